@@ -234,6 +234,7 @@ package rewriter
 //@   ensures[node] fresh(r)
 //@   ensures[nil-head] isnil(x) ==> same(r.List, xs)
 //@   ensures[head] !isnil(x) ==> len(r.List) == len(xs) + 1 && r.List[0] == x
+//@   ensures[tail] !isnil(x) ==> (forall j: Int :: 0 <= j && j < len(xs) ==> r.List[j + 1] == xs[j])
 //@ func (f factor) Stmt(n) (r)
 //@   requires !isnil(n) && (implements(n, Expr) || implements(n, Stmt))
 //@   ensures[expr] implements(n, Expr) ==> fresh(r) && isa(r, ExprStmt) && as(r, ExprStmt).X == n
@@ -313,3 +314,130 @@ package rewriter
 //@ func (y *yieldAst) ForPostFun(post) (r)
 //@   ensures[nil] isnil(post) ==> r == nil
 //@   ensures[fun] !isnil(post) ==> fresh(r) && r.Body != nil && len(r.Body.List) == 1 && r.Body.List[0] == post
+
+// ---------------------------------------------------------------- diagnostics
+// r.assert(ok, ...) raises a diagnostic (a rejection of the input), not a crash: callers continue only if ok.
+
+//@ func (r *rewriter) assert(pkg, ok, pos, format, a)
+//@   trusted      -- formats a message with fmt and the loader, then panics iff !ok
+//@   ensures ok
+//@ func (r *yieldRewriter) assert(ok, pos, format, a)
+//@   requires r.rewriter != nil
+//@   ensures ok
+//@ func (r *yieldFromRewriter) assert(ok, pos, format, a)
+//@   requires r.rewriter != nil
+//@   ensures ok
+
+// ---------------------------------------------------------------- range.go: unique names and range lowering (C15, C04)
+
+//@ extern strconv.Itoa(i) (s)
+//@   ensures same(s, itoaS(i))
+
+//@ func (r *yieldRewriter) gensym(prefix) (s)
+//@   ensures[test-mode] runningWithGoTest ==> same(s, prefix) && r.symCnt == old(r.symCnt)
+//@   ensures[counted] !runningWithGoTest ==> r.symCnt == old(r.symCnt) + 1 && same(s, strcat(prefix, itoaS(r.symCnt)))
+//@   modifies r.symCnt
+
+//@ pred IsBlank(e ast.Expr) := isa(e, Ident) && !isnil(e) && as(e, Ident).Name == "_"
+//@ pred Ignored(e ast.Expr) := isnil(e) || IsBlank(e)
+//@ pred WfExpr(e ast.Expr) := isnil(e) ==> same(e, nil)      -- go/parser never produces typed-nil nodes
+
+//@ func (r *yieldRewriter) ignoreKeyVal(k, v) (a, b)
+//@   requires WfExpr(k) && WfExpr(v)
+//@   ensures[value] a == Ignored(k) && b == Ignored(v)
+
+//@ pred IsCallOfMethod(e ast.Expr, recv ast.Expr, name string) := isa(e, CallExpr) && !isnil(e) && len(as(e, CallExpr).Args) == 0
+//@        && isa(as(e, CallExpr).Fun, SelectorExpr) && !isnil(as(e, CallExpr).Fun)
+//@        && as(as(e, CallExpr).Fun, SelectorExpr).X == recv && as(as(e, CallExpr).Fun, SelectorExpr).Sel != nil
+//@        && same(as(as(e, CallExpr).Fun, SelectorExpr).Sel.Name, name)
+//@ pred IsFieldOfCurrent(e ast.Expr, it ast.Expr, field string) := isa(e, SelectorExpr) && !isnil(e)
+//@        && as(e, SelectorExpr).Sel != nil && same(as(e, SelectorExpr).Sel.Name, field)
+//@        && IsCallOfMethod(as(e, SelectorExpr).X, it, cstCurrent)
+
+//@ func (r *yieldRewriter) rewriteRangeToForIter(n, iter) (init, forStmt)
+//@   requires n != nil && n.Body != nil && WfExpr(n.Key) && WfExpr(n.Value)
+//@   ensures[init] fresh(init) && init.Tok == token.DEFINE && len(init.Lhs) == 1 && len(init.Rhs) == 1 && init.Rhs[0] == iter
+//@        && isa(init.Lhs[0], Ident) && fresh(init.Lhs[0])
+//@   ensures[once] fresh(forStmt) && isnil(forStmt.Init) && isnil(forStmt.Post) && IsCallOfMethod(forStmt.Cond, init.Lhs[0], cstMoveNext)
+//@   ensures[body-untouched] Ignored(n.Key) && Ignored(n.Value) ==> forStmt.Body == n.Body
+//@   ensures[key] !Ignored(n.Key) && Ignored(n.Value) ==> fresh(forStmt.Body) && isa(forStmt.Body.List[0], AssignStmt)
+//@        && (let kv := as(forStmt.Body.List[0], AssignStmt) in kv.Tok == n.Tok && len(kv.Lhs) == 1 && kv.Lhs[0] == n.Key
+//@             && len(kv.Rhs) == 1 && IsFieldOfCurrent(kv.Rhs[0], init.Lhs[0], cstPairKey))
+//@   ensures[value] Ignored(n.Key) && !Ignored(n.Value) ==> fresh(forStmt.Body) && isa(forStmt.Body.List[0], AssignStmt)
+//@        && (let kv := as(forStmt.Body.List[0], AssignStmt) in kv.Tok == n.Tok && len(kv.Lhs) == 1 && kv.Lhs[0] == n.Value
+//@             && len(kv.Rhs) == 1 && IsFieldOfCurrent(kv.Rhs[0], init.Lhs[0], cstPairVal))
+//@   ensures[both] !Ignored(n.Key) && !Ignored(n.Value) ==> fresh(forStmt.Body) && isa(forStmt.Body.List[0], AssignStmt)
+//@        && (let kv := as(forStmt.Body.List[0], AssignStmt) in kv.Tok == n.Tok && len(kv.Lhs) == 2 && kv.Lhs[0] == n.Key && kv.Lhs[1] == n.Value
+//@             && len(kv.Rhs) == 2 && IsFieldOfCurrent(kv.Rhs[0], init.Lhs[0], cstPairKey) && IsFieldOfCurrent(kv.Rhs[1], init.Lhs[0], cstPairVal))
+//@   ensures[define-nests] !(Ignored(n.Key) && Ignored(n.Value)) && n.Tok == token.DEFINE ==> len(forStmt.Body.List) == 2
+//@        && isa(forStmt.Body.List[1], BlockStmt) && as(forStmt.Body.List[1], BlockStmt) == n.Body
+//@   ensures[assign-splices] !(Ignored(n.Key) && Ignored(n.Value)) && n.Tok != token.DEFINE ==> len(forStmt.Body.List) == len(n.Body.List) + 1
+//@        && (forall j: Int :: 0 <= j && j < len(n.Body.List) ==> forStmt.Body.List[j + 1] == n.Body.List[j])
+//@   modifies r.symCnt
+
+// ---------------------------------------------------------------- rewrite.go: yield recognition, consumer range loops (C12, C06, C05)
+
+//@ extern (*loader.Pkg).Callee(pkg, call) (o)
+//@   ensures o == calleeOf(call)
+//@ extern (*loader.Pkg).TypeOf(pkg, e) (t)
+//@   ensures t == typeOfExpr(e)
+//@ extern (*loader.Pkg).NewIdent(pkg, name, ty) (id)
+//@   ensures fresh(id) && same(id.Name, name)
+//@ extern (*loader.Pkg).UpdateUses(pkg, id, obj)
+//@   ensures true
+//@ extern (*loader.Pkg).ShowNode(pkg, n) (s)
+//@   ensures true
+
+//@ pred IsCallStmtOf(n ast.Node, callee types.Object) := isa(n, ExprStmt) && !isnil(n)
+//@        && isa(unparenE(as(n, ExprStmt).X), CallExpr) && calleeOf(as(unparenE(as(n, ExprStmt).X), CallExpr)) == callee
+
+//@ func (r *rewriter) isCallStmtOf(pkg, n, callee) (call, ok)
+//@   requires isa(n, ExprStmt) ==> !isnil(n)
+//@   ensures[sound] ok ==> IsCallStmtOf(n, callee) && call == as(unparenE(as(n, ExprStmt).X), CallExpr)
+//@   ensures[complete] IsCallStmtOf(n, callee) ==> ok       -- a yield statement that is not recognised is emitted as a no-op call: the value is lost
+//@ func (r *rewriter) isYieldCall(pkg, n) (call, ok)
+//@   requires isa(n, ExprStmt) ==> !isnil(n)
+//@   ensures[sound] ok ==> IsCallStmtOf(n, r.yieldFunc) && call == as(unparenE(as(n, ExprStmt).X), CallExpr)
+//@   ensures[complete] IsCallStmtOf(n, r.yieldFunc) ==> ok
+//@ func (r *rewriter) isYieldFromCall(pkg, n) (call, ok)
+//@   requires isa(n, ExprStmt) ==> !isnil(n)
+//@   ensures[sound] ok ==> IsCallStmtOf(n, r.yieldFromFunc) && call == as(unparenE(as(n, ExprStmt).X), CallExpr)
+//@   ensures[complete] IsCallStmtOf(n, r.yieldFromFunc) ==> ok
+
+//@ func (r *rewriter) rewriteForRange(pkg, fr) (f)
+//@   requires fr != nil && fr.Body != nil && WfExpr(fr.Key) && WfExpr(fr.Value)
+//@   ensures[valid] !isnil(fr.Key) && isnil(fr.Value)
+//@   ensures[init-once] fresh(f) && isa(f.Init, AssignStmt) && !isnil(f.Init)
+//@        && (let a := as(f.Init, AssignStmt) in a.Tok == token.DEFINE && len(a.Lhs) == 1 && isa(a.Lhs[0], Ident) && fresh(a.Lhs[0])
+//@             && len(a.Rhs) == 1 && a.Rhs[0] == fr.X)
+//@   ensures[cond] IsCallOfMethod(f.Cond, as(f.Init, AssignStmt).Lhs[0], cstMoveNext) && isnil(f.Post)
+//@   ensures[bind] fresh(f.Body) && isa(f.Body.List[0], AssignStmt)
+//@        && (let kv := as(f.Body.List[0], AssignStmt) in kv.Tok == fr.Tok && len(kv.Lhs) == 1 && kv.Lhs[0] == fr.Key
+//@             && len(kv.Rhs) == 1 && IsCallOfMethod(kv.Rhs[0], as(f.Init, AssignStmt).Lhs[0], cstCurrent))
+//@   ensures[body-order] len(f.Body.List) == len(fr.Body.List) + 1
+//@        && (forall j: Int :: 0 <= j && j < len(fr.Body.List) ==> f.Body.List[j + 1] == fr.Body.List[j])
+
+// ---------------------------------------------------------------- yieldfrom_rewrite.go (C05)
+
+//@ func (r *yieldFromRewriter) checkYieldCall(call) (t)
+//@   trusted      -- go/types checks of the argument; diagnostics iff the argument count is not 1 or the type is not co.Iter[_]
+//@   ensures len(call.Args) == 1
+
+//@ func (r *yieldFromRewriter) rangeIter(pos, yieldFun, iter, iterT) (rs)
+//@   requires pos != nil && r.rewriter != nil && !isnil(yieldFun)
+//@   assume-obligation call[assert].requires because the synthetic call resolves to co.Yield after UpdateUses (typeutil.Callee on info.Uses): behaviour of go/types + go-loader, outside the subset
+//@   ensures[range] fresh(rs) && rs.Tok == token.DEFINE && rs.X == iter && isnil(rs.Value)
+//@        && isa(rs.Key, Ident) && fresh(rs.Key) && same(as(rs.Key, Ident).Name, cstYieldFromRangeVar)
+//@   ensures[body] rs.Body != nil && len(rs.Body.List) == 1 && isa(rs.Body.List[0], ExprStmt) && !isnil(rs.Body.List[0])
+//@        && isa(as(rs.Body.List[0], ExprStmt).X, CallExpr)
+//@        && (let c := as(as(rs.Body.List[0], ExprStmt).X, CallExpr) in c.Fun == yieldFun && len(c.Args) == 1 && c.Args[0] == rs.Key)
+
+//@ func (r *yieldFromRewriter) rewriteYieldFrom(call) (rs)
+//@   requires call != nil && r.rewriter != nil && !(r.rewriter.coImportedName == "_")
+//@   requires len(call.Args) == 1 && WfExpr(call.Fun)       -- the call type-checks against co.YieldFrom's signature
+//@   ensures[desugar] fresh(rs) && rs.Tok == token.DEFINE && isnil(rs.Value) && isa(rs.Key, Ident) && fresh(rs.Key)
+//@        && len(call.Args) == 1 && rs.X == call.Args[0]
+//@   ensures[body] rs.Body != nil && len(rs.Body.List) == 1 && isa(rs.Body.List[0], ExprStmt) && !isnil(rs.Body.List[0])
+//@        && isa(as(rs.Body.List[0], ExprStmt).X, CallExpr)
+//@        && (let c := as(as(rs.Body.List[0], ExprStmt).X, CallExpr) in len(c.Args) == 1 && c.Args[0] == rs.Key
+//@             && (RefersTo(c.Fun, cstAPIYield) || (isa(c.Fun, IndexExpr) && RefersTo(as(c.Fun, IndexExpr).X, cstAPIYield))))
